@@ -155,6 +155,102 @@ def rule_fail_isolated(ctx, rep):
             )
 
 
+def _maps_all(e: ast.expr, p: str) -> bool:
+    """e yields one element per element of parameter p (a map without filter)."""
+    if isinstance(e, ast.Name):
+        return e.id == p
+    if isinstance(e, ast.Call) and isinstance(e.func, ast.Name) and e.func.id in ("list", "tuple", "iter") and len(e.args) == 1:
+        return _maps_all(e.args[0], p)
+    if isinstance(e, ast.Call) and isinstance(e.func, ast.Name) and e.func.id == "map" and len(e.args) == 2:
+        return _maps_all(e.args[1], p)
+    if isinstance(e, (ast.ListComp, ast.GeneratorExp)) and len(e.generators) == 1 and not e.generators[0].ifs:
+        return _maps_all(e.generators[0].iter, p)
+    return False
+
+
+def rule_accumulate_all(ctx, rep, rule_id="R-ACCUMULATE-ALL"):
+    """Shared by C09 / C10 / C11 / C15: what a file or codemod reports must reach the run-wide record whole."""
+    from ..derive import ElemSources
+
+    rep.rule(
+        rule_id,
+        "every accumulator of the execution context and of the file context that takes a collection parameter (add_changesets, "
+        "add_failures, add_unfixed_findings, add_dependencies, ...) stores *all* elements of that parameter, unconditionally and on "
+        "every path: a filter there (de-duplication against other codemods' or other files' records, 'already reported' tests) makes "
+        "one file's or one codemod's report depend on its siblings and loses failures / findings",
+        min_instances=4,
+    )
+    n = 0
+    for cq in ("codemodder.context.CodemodExecutionContext", "codemodder.file_context.FileContext"):
+        cls = ctx.prog.cls(cq)
+        for name, m in cls.methods.items():
+            if not name.startswith("add_") or m.absorbed:
+                continue
+            params = m.positional_params()[1:]
+            r = ctx.resolver(m)
+            coll_params = []
+            for p in params:
+                ann = r.param_annotation(p)
+                t = unparse(ann) if ann is not None else ""
+                if any(w in t for w in ("list", "List", "set", "Set", "Sequence", "Iterable", "dict", "Dict")):
+                    coll_params.append(p)
+            if not coll_params:
+                continue
+            es = ElemSources(ctx, m)
+            def on_self(c):
+                recv = r.expand(c.func.value) if isinstance(c.func.value, ast.Name) else c.func.value
+                return "self" in names_in(recv)
+
+            fa = FlowAnalysis(m.node, lambda c: "EV:store" if isinstance(c.func, ast.Attribute) and c.func.attr in ("extend", "update", "append", "add") and on_self(c) else None)
+            stores = [c for c in walk_no_nested(m.node) if isinstance(c, ast.Call) and isinstance(c.func, ast.Attribute) and c.func.attr in ("extend", "update", "append", "add") and on_self(c) and c.args]
+            pm = ctx.parents(m)
+            for p in coll_params:
+                mine = []
+                for c in stores:
+                    if c.func.attr in ("append", "add"):
+                        # element-wise store inside `for v in p:` -- the same thing as extend(p) when nothing guards it
+                        a = c.args[0]
+                        cur = pm.get(id(c))
+                        loop = None
+                        while cur is not None and cur is not m.node:
+                            if isinstance(cur, ast.For) and isinstance(cur.target, ast.Name) and isinstance(a, ast.Name) and cur.target.id == a.id:
+                                loop = cur
+                                break
+                            cur = pm.get(id(cur))
+                        if loop is not None and any(isinstance(leaf, ast.Name) and leaf.id == p for leaf, _f in es.sources(loop.iter)):
+                            mine.append((c, [(ast.Name(id=p, ctx=ast.Load()), frozenset())]))
+                        continue
+                    leaves = es.sources(c.args[0])
+                    if any(isinstance(leaf, ast.Name) and leaf.id == p for leaf, _f in leaves) or p in names_in(c.args[0]):
+                        mine.append((c, leaves))
+                if not mine:
+                    continue  # the parameter is not stored element-wise here (e.g. transformed first): judged elsewhere
+                n += 1
+                ok = True
+                why = ""
+                for c, leaves in mine:
+                    whole = any(isinstance(leaf, ast.Name) and leaf.id == p and not f for leaf, f in leaves) or _maps_all(c.args[0], p)
+                    if not whole:
+                        ok = False
+                        why = f"`{unparse(c)[:70]}` stores only some elements of `{p}` (filtered or transformed)"
+                    st = fa.state_at(c)
+                    guarded = st is not None and any(
+                        txt for must, _ in st.parts for pol, txt in must
+                        if not txt.startswith(("EV:", "ITER:", "MATCH:")) and txt not in (p, f"{p} is None")
+                    )
+                    if guarded:
+                        ok = False
+                        why = f"`{unparse(c)[:70]}` is executed only under a condition"
+                exits = [e for e in fa.exits if e.kind != "raise"]
+                elementwise = all(c.func.attr in ("append", "add") for c, _ in mine)  # a loop over an empty parameter stores nothing, rightly
+                if ok and not elementwise and not all(has_event(e.state, "EV:store") for e in exits):
+                    ok = False
+                    why = "some path returns without storing the parameter"
+                rep.check(rule_id, m.qname, m.loc(mine[0][0]), ok, f"{name}({p})", why)
+    if n < 4:
+        raise AnalysisError(f"only {n} collection accumulators found on the execution / file context")
+
+
 def rule_failure_unfixed(ctx, rep):
     rep.rule(
         "R-FAILURE-UNFIXED",
@@ -266,6 +362,7 @@ def check(ctx, rep):
     )
     rule_fail_isolated(ctx, rep)
     rule_failure_unfixed(ctx, rep)
+    rule_accumulate_all(ctx, rep)
     rule_no_changeset_on_failure(ctx, rep)
     rule_worker_no_raise(ctx, rep)
     from .c18 import rule_no_swallow
